@@ -88,6 +88,7 @@ type Replay struct {
 	Violation *Violation `json:"violation,omitempty"`
 	Log       []string   `json:"log,omitempty"`
 	Shrunk    bool       `json:"shrunk"`
+	Golden    string     `json:"golden,omitempty"`    // C09: path of a golden directory that no longer reads back identically
 	FromSeed  bool       `json:"from_seed,omitempty"` // re-execute the seed (no recorded tape: the run never ended)
 	Note      string     `json:"note,omitempty"`
 }
